@@ -62,8 +62,14 @@ def part_pipeline(ctx):
             if fam == "ngram" and not any(len(d) >= 2 for d in corpus):
                 continue
         kern = rng.choice(["flat", "flat", "geometric", "harmonic"]) if fam == "token" else rng.choice(["flat", "geometric"]) if fam in ("timed", "multi") else "flat"
+        rmax = 2 if (kern == "harmonic" or fam == "multi") else 3
+        if rng.random() < 0.5:
+            wins = [dict(orient="directional", r=rng.randint(1, rmax), mix=1)]
+        else:       # several windows with their own radius, orientation and mix weight
+            wins = [dict(orient=rng.choice(["before", "after", "directional"]), r=rng.randint(1, rmax), mix=m)
+                    for m in rng.sample([1, 2, 3], 2)]
         jobs.append(dict(family=fam, corpus=corpus, V=V, n_iter=rng.choice([1, 2, 3]), eps=rng.choice([0, 0, 0.05, 0.2, 0.5]),
-                         r=rng.randint(1, 2 if kern == "harmonic" else 3), wnorm=rng.random() < 0.7, N=2, kernel=kern,
+                         r=max(w["r"] for w in wins), wins=wins, wnorm=rng.random() < 0.7, N=2, kernel=kern,
                          extra=dict(n_threads=rng.choice([1, 2, 3]))))
     res = pool_map("em", "pipeline", jobs, min_chunk=4, timeout=3000)
     recs, owners = [], []
@@ -104,9 +110,10 @@ def part_pipeline(ctx):
     chain, cown = [], []
     for j, r in zip(jobs, res):
         if r and "codes" in r and r.get("finite"):
-            rec = {"family": j["family"] if j["family"] in ("multi", "ngram") else "token", "V": j["V"], "r": j["r"],
+            kwv = ([1, 1, 1, 1] if j["kernel"] == "flat" else [8, 4, 2, 1]) if j["family"] == "multi" else KW[j["kernel"]]
+            rec = {"family": j["family"] if j["family"] in ("multi", "ngram") else "token", "V": j["V"],
                    "eps": int(round(j["eps"] * 10 ** 6)), "corpus": j["corpus"], "mats": r["codes"], "N": 2, "grams": [],
-                   "kw": ([1, 1, 1, 1] if j["kernel"] == "flat" else [8, 4, 2, 1]) if j["family"] == "multi" else KW[j["kernel"]]}
+                   "wins": [dict(orient=w["orient"], r=w["r"], mix=w["mix"], kw=kwv) for w in j["wins"]]}
             if j["family"] == "ngram":
                 rec.update(corpus=r["extra"]["ng_corpus"], grams=r["extra"]["ng_grams"], V=r["extra"]["ng_V"])
             chain.append(rec)
@@ -130,7 +137,7 @@ def part_pipeline(ctx):
         widths.append(int(v["width"]))
         if v["bad"]:
             k, a, c, m, lo, hi = [int(x) for x in v["bad"]]
-            ctx.violation({"part": "chain", "family": j["family"], "kernel": j["kernel"], "corpus": j["corpus"], "n_iter": j["n_iter"], "eps": j["eps"], "r": j["r"],
+            ctx.violation({"part": "chain", "family": j["family"], "kernel": j["kernel"], "corpus": j["corpus"], "n_iter": j["n_iter"], "eps": j["eps"], "wins": j["wins"],
                            "n_threads": j["extra"]["n_threads"], "kind": "matrix after iteration %d is not the documented step of the matrix before" % k},
                           {"job": j, "recorded": chain[t - 1], "first_bad": {"iteration": k, "row": a, "col": c, "recorded_code": m, "box": [lo, hi]}})
         else:
